@@ -170,8 +170,20 @@ def align_harness():
                  "replayers.c07:align", {}, "cue setting align follows the paragraph's textAlign and direction (finite table, enumerated completely)")
 
 
+WRITER_SHAPES = [("styled", ("ab", "ae")), ("styled", ("pe", "ab")), ("twop", ("b1", "e1")), ("nested", ("s1b", "s3e")), ("rubyparts", ("rtb", "rte"))]
+WRITER_SHAPES_THOROUGH = [("styled", ("pb", "ab", "ae")), ("twop", ("b1", "e1", "e2")), ("regions", ("r1b", "r1e"))]
+
+
 def all_harnesses(tier):
-  return [to_string_harness("srt"), to_string_harness("vtt")] + [line_harness(d) for d in sp.DisplayAlignType] + [align_harness()]
+  from contracts.c12 import clock_harnesses
+  hs = [to_string_harness("srt"), to_string_harness("vtt")] + [line_harness(d) for d in sp.DisplayAlignType] + [align_harness()]
+  hs += [h for h in clock_harnesses() if h.name.startswith("ClockTime.from_seconds")]      # discharge the callee contract used below
+  for shape, mask in WRITER_SHAPES + (WRITER_SHAPES_THOROUGH if tier != "quick" else []):
+    for fmt in ("srt", "vtt"):
+      hs.append(writer_harness(fmt, shape, mask))
+  for shape, mask in [("moving", ("ab", "ae")), ("moving", ("ob", "oe")), ("twop", ("b1", "e1"))]:
+    hs.append(writer_harness("vtt:line", shape, mask))
+  return hs
 
 
 def check(tier, seed, only=None, skip_a=False, skip_b=False):
@@ -179,19 +191,27 @@ def check(tier, seed, only=None, skip_a=False, skip_b=False):
   if only:
     hs = [h for h in hs if only in h.name]
   for h in hs:
-    h.budget_s = 60.0 if tier == "quick" else 300.0
+    h.budget_s = 300.0 if tier == "quick" else 1800.0
+    h.max_paths = 20000
   cov, findings, undecided, errors = ({}, [], [], [])
   if not skip_a:
     cov, findings, undecided, errors = framework.run_tier_a(PROP, hs)
+    from contracts import callee
+    cov["assumed_callee_contracts"] = [{"callee": k, "stated_in": "contracts/callee.py", "discharged_in_this_run_by": v} for k, v in callee.DISCHARGED_BY.items()]
   cov["trusted_base"] = ASSUMPTIONS
-  cov["explanation"] = ("Proved (all rational times below 2^22 s / all region geometries inside the root container): SrtParagraph.to_string and "
+  cov["explanation"] = ("Proved (all rational timings): the WHOLE srt and vtt writers on document shapes (styled spans incl. an animated colour, two "
+                        "paragraphs, nested spans + br, rubies with timed parts; thorough: regions, three symbols) write text that parses under the "
+                        "strict grammar (numbering, begin < end, order, no overlap, well-nested known tags, escaping) and whose tags / classes enclose "
+                        "exactly the characters with non-default computed style at the significant time each cue begins at.  "
+                        "Proved (all rational times below 2^22 s / all region geometries inside the root container): SrtParagraph.to_string and "
                         "VttCue.to_string serialise begin --> end with begin < end, zero-padded in-range fields equal to the times rounded to the "
                         "millisecond, and raise exactly when the interval vanishes at millisecond precision; VttContext.process_p writes "
                         "line = the rounded computed edge of the region for its display alignment (within 0.5, inside 0..100) with the matching "
                         "alignment, and align per textAlign x direction.  Bounded (generated documents x writer configurations): strict "
                         "SubRip / WebVTT grammar of the whole output, numbering, order, escaping, tag nesting, tags == computed styles per "
                         "character, line/align settings against the ISD, writers do not raise; normalize_eol and the blank test exhaustively "
-                        "over short strings.  Not decided by proof: everything that involves strings, the ISD filters and the tree walk.")
+                        "over short strings.  Arbitrary nesting, arbitrary text (escaping of every character) and the cue settings under the other "
+                        "configurations are bounded only.")
   if not skip_b:
     from pyvc import loader
     data, errs = framework.run_tier_b("c07", tier, seed)
@@ -211,3 +231,115 @@ def check(tier, seed, only=None, skip_a=False, skip_b=False):
       cov["bounded_exhaustive"] = data.get("exhaustive")
       cov["bounded_samples"] = data.get("samples", [])[:6]
   return framework.Outcome(PROP, tier, seed, "other", cov, ASSUMPTIONS, findings, undecided, errors, 0.0)
+
+
+# ---------------------------------------------------------------------------------------------------------------------
+# the whole writers on document shapes with symbolic timing: grammar and tags
+
+
+def writer_harness(fmt, shape, mask):
+  """For ALL rational values of the masked timing attributes: the text the real writer produces parses under the strict grammar
+  of specs/cues.py (numbering, begin < end, order, no overlap, well-nested known tags, escaping) and, cue by cue, the tags /
+  classes enclose exactly the characters whose computed style (real ISD at the exact significant time of the cue) differs from
+  the default -- on every feasible path."""
+  from pyvc import modular
+  from contracts import callee
+  from specs.isd_shapes import SHAPES
+  from specs import cues as C
+  import ttconv.srt.writer as srt_writer
+  import ttconv.vtt.writer as vtt_writer
+
+  def run(ctx):
+    import re as _re
+    from rtc import cues_common as CC
+    vals = {}
+
+    def v(name):
+      if name not in mask:
+        return None
+      if name not in vals:
+        x = sym_frac(name)
+        assume(x >= 0)
+        assume(x < BOUND)
+        vals[name] = x
+      return vals[name]
+
+    doc = SHAPES[shape](v)
+    writer = srt_writer if fmt == "srt" else vtt_writer
+    cfg = VTTWriterConfiguration(line_position=True, text_align=True) if fmt == "vtt:line" else None
+    with modular.contracts(callee.CLOCKTIME):
+      st, out = core.call_real(writer.from_model, doc, cfg, allowed=())
+    lits, toks = core.tokens_in(out)
+    prove(all(spec in ("02d", "03") for _, spec in toks), "symbolic-values-occur-only-in-zero-padded-time-fields", note=str([s for _, s in toks][:8]))
+    concrete = lits[0]
+    for (_, spec), lit in zip(toks, lits[1:]):
+      concrete += ("000" if spec == "03" else "00") + lit
+    cues, problems, _ = CC.read_output(fmt, concrete)
+    fld = "(\\d+|⟦sym\\d+⟧)"
+    sep = "," if fmt == "srt" else "\\."
+    timing = _re.compile(f"{fld}:{fld}:{fld}{sep}{fld} --> {fld}:{fld}:{fld}{sep}{fld}")
+    tl = [mm for mm in (timing.match(ln) for ln in out.split("\n")) if mm]
+    prove(len(tl) == len(cues), "every-cue-has-its-timing-line")
+
+    def val(x):
+      return core.cur().tokens[int(x[4:-1])][0] if x.startswith("⟦") else int(x)
+
+    def ms(g):
+      return ((val(g[0]) * 60 + val(g[1])) * 60 + val(g[2])) * 1000 + val(g[3])
+
+    for mm, c in zip(tl, cues):      # the symbolic times instead of the placeholder digits
+      c["begin"], c["end"] = ms(mm.groups()[0:4]), ms(mm.groups()[4:8])
+    probs = list(problems) + C.sequence_problems(cues, "required", same_interval_ok=fmt == "vtt:line")
+    for c in cues:
+      probs += c["markup_problems"]
+      if fmt == "srt" and any(C._SRT_TIMING.fullmatch(ln) for ln in c["payload"].split(C.NL)):
+        probs.append(("timing-line-in-payload", c["payload"]))
+    if fmt == "srt" and concrete and not concrete.endswith("\n"):
+      probs.append(("no-final-eol", concrete[-20:]))
+    prove(not probs, "output-parses-under-the-strict-grammar", note=str(probs)[:300])
+    # tags: the computed styles at the exact significant time the cue begins at
+    st, sig = core.call_real(ISD.significant_times, doc, allowed=())
+    offs = list(sig)
+    n_compared = 0
+    for c in cues:
+      t = None
+      for o in offs:
+        if C.to_ms(o) == c["begin"]:
+          t = o
+      if t is None:
+        continue          # (that every cue begins at a significant time is C06's obligation)
+      st, isd = core.call_real(ISD.from_model, doc, t, allowed=())
+      lines = []
+      for reg in isd.iter_regions():
+        lines += C.line_form(C.region_tokens(CC.isd_tree(reg), "base"))
+      lines = C.drop_blank_lines(lines)
+      if C.text_of(lines) != c["text"]:
+        continue          # (the text is C06's obligation)
+      diffs = CC.style_diffs(fmt[:3], lines, C.drop_blank_lines(c["lines"]))
+      prove(not diffs, "tags-enclose-exactly-the-characters-with-non-default-computed-style", note=str(diffs)[:300])
+      n_compared += 1
+      if fmt == "vtt:line":
+        regs = [CC.isd_tree(reg) for reg in isd.iter_regions()]
+        want = CC.expected_line(regs[0]) if len(regs) == 1 else None
+        sett = c["settings"]
+        if want is not None:
+          lv, al = want
+          prove("line" in sett and sett.get("line_value") is not None, "line-setting-present", note=str(sett))
+          if sett.get("line_value") is not None:
+            prove(abs(sett["line_value"] - lv) <= Fraction(1, 2), "line-setting==computed-region-edge-of-this-interval", note=f"{sett.get('line')} vs {lv} {al}")
+            prove(sett.get("line_align") == al or (sett.get("line_align") is None and al == "start"), "line-alignment==display-alignment-of-this-interval",
+                  note=f"{sett.get('line')} vs {al}")
+        ps = CC.all_paragraphs(regs[0]) if len(regs) == 1 else []
+        wa = CC.expected_align(ps) if ps else None
+        if wa is not None:
+          prove(sett.get("align") in wa, "align-setting==text-alignment-of-the-paragraph", note=f"{sett.get('align')} vs {sorted(x or 'none' for x in wa)}")
+    if cues:
+      core.cover("styles-of-every-cue-compared", n_compared == len(cues))
+
+  return Harness(f"{fmt}.writer.grammar+tags[{shape}:{'+'.join(mask)}]", run,
+                 [f"ttconv.{fmt[:3]}.writer:from_model", "ttconv.isd:ISD.generate_isd_sequence"] +
+                 (["ttconv.srt.writer:SrtContext.append_element", "ttconv.srt.writer:SrtContext.add_isd", "ttconv.srt.paragraph:SrtParagraph.to_string"] if fmt == "srt" else
+                  ["ttconv.vtt.writer:VttContext.process_inline_element", "ttconv.vtt.writer:VttContext.process_p", "ttconv.vtt.writer:VttContext.add_isd", "ttconv.vtt.cue:VttCue.to_string"]),
+                 "replayers.c07:shape", {"fmt": fmt, "shape": shape, "mask": list(mask)},
+                 "the whole writer's output is grammatical, its tags reflect the computed styles and (vtt:line) its cue settings the region and "
+                 "paragraph of each interval (all rational timings, this shape)")
